@@ -442,6 +442,10 @@ def run_impl(case, rep, fixed_points=None):
     envs = parse_envs(case)
     var = solid.vars()[0]
     rows = []
+    if case["mode"] == "history" and fixed_points is None:
+        broadcastify(solid)
+        B = boundary_of(solid, case["wrap"], tp)
+        return history_rows(case, rep, tp, torch, B, solid, envs)
     if fixed_points is not None:
         rows = [dict(p=[float(Fr(a)) for a in p], env=e, src="replay") for p, e in fixed_points]
     else:
@@ -526,6 +530,128 @@ def run_impl(case, rep, fixed_points=None):
     if case["params"] and fixed_points is None:
         rows += evaluated_rows(case, rep, tp, torch, B, solid, envs, rows)
     return rows
+
+
+class PFB(geomgen.PF):
+    """parameter function whose Python callable broadcasts over its arguments (a fixed default of one row next to n parameter
+    rows): every component is `expr + 0·(sum of all variables)` — what a user function of several variables has to do itself,
+    because `UserFunction` hands a fixed default through as it was given"""
+
+    def py(self, scalar=False, matrix=False):
+        vs = self.vars()
+        if not vs:
+            return super().py(scalar=scalar, matrix=matrix)
+        import torch
+        zero = " + ".join(f"0.0 * {v_}[:, :1]" for v_ in vs)
+        comps = [f"(({geomgen.pt_py(t_) if geomgen.pt_vars(t_) else repr(float(geomgen.pt_eval(t_, {})))}) + {zero})" for t_ in self.terms]
+        src = f"def _f({', '.join(vs)}):\n    return torch.column_stack([{', '.join(comps)}])\n"
+        ns = {"torch": torch}
+        exec(src, ns)
+        f = ns["_f"]
+        f._src = src
+        return f
+
+
+def broadcastify(node):
+    node.pfs = [PFB(pf.terms) for pf in node.pfs]
+    for k_ in node.kids:
+        broadcastify(k_)
+
+
+def history_rows(case, rep, tp, torch, B, solid, envs):
+    """object histories: several partially evaluated copies made from ONE parent (shape functions of the two variables t, D;
+    `B(t=…)` leaves D open), and the EARLIER copy and the parent used again after a sibling was made.
+    envs[0] = (t = v1, D = d), envs[1] = (t = v2, D = d).  Every row is judged at the parameter values its object was made for."""
+    var = solid.vars()[0]
+    n = case["n"]
+    dim = geomgen.DIM[var]
+    def tval(env):
+        return torch.tensor([[float(env["t"][0])]], dtype=torch.float32)
+    pD = tp.spaces.Points(torch.tensor([[float(envs[0]["D"][0])]], dtype=torch.float32), tp.spaces.R1("D"))
+    def pDn(k):
+        return tp.spaces.Points(torch.full((k, 1), float(envs[0]["D"][0]), dtype=torch.float32), tp.spaces.R1("D"))
+    rows = []
+    def sample(obj, how, env_i, tag):
+        try:
+            fn = obj.sample_random_uniform if how == "random" else obj.sample_grid
+            s_ = common.call_with_timeout(3, fn, n=n, params=pD)
+            t_ = s_.as_tensor
+            if tuple(t_.shape) != (n, dim) or not bool(torch.isfinite(t_).all()):
+                rep.count("sampler-bad-output:" + how + "@" + tag)
+                return None
+            return t_
+        except Exception:
+            rep.count("sampler-raised:" + how + "@" + tag)
+            return None
+    def normals(obj, pts_t, env_i, src, params=None):
+        if pts_t is None:
+            return
+        mine = [dict(p=r_, env=env_i, src=src) for r_ in pts_t.tolist()]
+        try:
+            pts = tp.spaces.Points(pts_t.clone(), solid.space(tp))
+            nv = torch.as_tensor(obj.normal(pts, params if params is not None else pDn(len(mine))))
+            if tuple(nv.shape) != (len(mine), dim):
+                for r_ in mine:
+                    r_["error"] = f"normal returned shape {tuple(nv.shape)} for {len(mine)} points"
+            else:
+                for r_, v_ in zip(mine, nv.to(torch.float64).tolist()):
+                    r_["n"] = v_
+        except Exception as e:  # noqa
+            for r_ in mine:
+                r_["error"] = f"normal raised {type(e).__name__}: {str(e)[:160]}"
+        rows.extend(mine)
+    try:
+        torch.manual_seed(case["seed"])
+        first = B(t=tval(envs[0]))
+        P1 = sample(first, "random", 0, "first")
+        normals(first, P1, 0, "random@first")
+        second = B(t=tval(envs[1]))                       # a sibling made from the same parent
+        P2 = sample(second, "grid", 1, "second")
+        normals(second, P2, 1, "grid@second")
+        normals(first, P1, 0, "random@first-after-sibling")        # the EARLIER copy again, same points
+        P1c = sample(first, "grid", 0, "first-after-sibling")
+        normals(first, P1c, 0, "grid@first-after-sibling")
+        if P1 is not None:                                        # the parent with explicit parameters, after its children
+            full = param_points(tp, torch, case, envs, [0] * len(P1))
+            normals(B, P1, 0, "random@parent-after-children", params=full)
+        third = first(D=torch.tensor([[float(envs[0]["D"][0])]], dtype=torch.float32))   # second step of the first copy
+        normals(third, P1, 0, "random@first-fully-evaluated", params=tp.spaces.Points.empty())
+        rep.count("histories")
+    except Exception as e:  # noqa
+        rep.count("history-raised:" + type(e).__name__)
+    return rows
+
+
+def gen_history(rng):
+    """shape functions of BOTH variables t and D: every position is `base + (a·t, b·D)`; alone or as the moving operand of a
+    Boolean node over a constant shape"""
+    from geomgen import PF, c, v, dy
+    g0 = Gen(rng, params=[], allow_rotate=False, allow_translate=False)
+    base = g0.prim2("x")
+    a, b = rng.choice([-1, 1]) * dy(rng, 0.25, 1, 4), rng.choice([-1, 1]) * dy(rng, 0.25, 1, 4)
+    def pos(pf):
+        return PF([("+", pf.terms[0], ("*", c(a), v("t"))), ("+", pf.terms[1], ("*", c(b), v("D")))])
+    if base.kind == "circle":
+        moving = Node("circle", "x", [pos(base.pfs[0]), base.pfs[1]])
+    else:
+        moving = Node(base.kind, "x", [pos(pf) for pf in base.pfs])
+    t1 = Fr(rng.randint(0, 4), 8)
+    t2 = t1 + Fr(rng.randint(8, 24), 8) * rng.choice([-1, 1])
+    envs = [{"t": [t1], "D": [Fr(rng.randint(0, 8), 8)]}]
+    envs.append({"t": [t2], "D": envs[0]["D"]})
+    node = moving
+    if rng.random() < 0.4:
+        for _ in range(20):
+            other = g0.prim2("x")
+            op = rng.choice(["cut", "union", "inter"])
+            node = Node(op, None, [], [other, moving] if op == "cut" or rng.random() < 0.5 else [moving, other])
+            flags = [[py_mem(other, e_, [float(x) for x in p_]) for lf in leaves(moving) for p_, _ in leaf_boundary_points(lf, e_, rng, 6)]
+                     for e_ in envs]
+            if all(any(f_) and not all(f_) for f_ in flags):
+                break
+        else:
+            node = moving
+    return node, envs
 
 
 def evaluated_rows(case, rep, tp, torch, B, solid, envs, rows):
@@ -851,7 +977,7 @@ def judge(rep, cs, solid, ent, replies):
     inp = dict(dom=cs["dom"], wrap=cs["wrap"], expression=f"{cs['wrap']} {solid.tokens()}", params=cs["params"],
                env=cs["envs"][r["env"]], point=[str(to_fr(a)) for a in r["p"]], point_float=r["p"], source=r["src"],
                call_row0=dict(point=[str(to_fr(a)) for a in ent["row0"]["p"]], env=cs["envs"][ent["row0"]["env"]]))
-    if is_sampler(r["src"]) or "@eval" in r["src"]:
+    if is_sampler(r["src"]) or "@" in r["src"]:
         inp["case"] = cs          # sampler-returned point: the replay re-runs the samplers of this case (seeded)
     rep.count("points")
     rep.count("src:" + r["src"].split("-")[0])
@@ -976,6 +1102,17 @@ def bad_interval_cases(ctx):
                                 PF_([c_(base_[0] - lam * Fr(3, 8)), c_(base_[1] + lam * Fr(3, 4))])])
         out.append(dict(id=10000 + len(out), mode="far-small-fixed", wrap="bdry", dom=far.describe(), params=[], envs=[{}], n=24,
                         seed=rng.randint(0, 2 ** 31 - 1), m=2))
+    # vertex orientation flipping between the parameter rows of one call (fixed share, independent of the random modes)
+    for ts in ([Fr(1, 8), Fr(7, 8)], [Fr(3, 4), Fr(1, 4), Fr(1)]):
+        node, _, _ = gen_flip_prim(rng)
+        out.append(dict(id=10000 + len(out), mode="flip-fixed", wrap="bdry", dom=node.describe(), params=["t"],
+                        envs=[{"t": [str(t_)]} for t_ in ts], n=8, seed=rng.randint(0, 2 ** 31 - 1), m=2))
+    # object histories (several evaluated copies of one parent, earlier copies reused)
+    for _ in range(ctx.scale(8, 60)):
+        node, envs_h = gen_history(rng)
+        out.append(dict(id=10000 + len(out), mode="history", wrap="bdry", dom=node.describe(), params=["t", "D"],
+                        envs=[{k_: [str(a) for a in v_] for k_, v_ in e.items()} for e in envs_h], n=rng.choice([6, 10]),
+                        seed=rng.randint(0, 2 ** 31 - 1), m=0))
     # fixed touching configurations built with the `contained` / `disjoint` flags
     for conf, flagged in (("edge", True), ("corner", True), ("tri-on-edge", True), ("hole", True), ("adjacent", True), ("edge", False)):
         node, _ = gen_touching(rng, conf, flagged)
@@ -993,7 +1130,7 @@ def run(ctx, rep, cases=None):
                 "constructed edge / corner / arc points accepted by the boundary's membership test; non-trivial = at least one boundary "
                 "point was obtained and the expression is not a bare constant interval; distinct = distinct (expression, rows, points)")
     if cases is None:
-        cases = [make_case(ctx, i) for i in range(ctx.scale(85, 1300))] + bad_interval_cases(ctx)
+        cases = [make_case(ctx, i) for i in range(ctx.scale(78, 1300))] + bad_interval_cases(ctx)
     evaluate(ctx, rep, cases)
     opaque_streams(ctx, rep)
     h = rep.hist
